@@ -27,7 +27,7 @@ var Def = driver.PropDef{
 		"R4 barrier before append (after barrierStatus reports flush, sendFunc() runs before the barrier command is cached); " +
 		"R5 barrier automaton (barrierMap + barrierStatus evaluated on 5 states x {select,multi,exec,other} and the illegal state against the reference table; ParseArgs lower-cases the command name the table is keyed by); " +
 		"R6 payload identity (Cmd/Args/Db of every enqueue flow from ParseArgs / HandleFilterKeyWithCommand / the parsed SELECT argument or target.db; start database enqueued first; fixed target database really selected); " +
-		"R7 filter polarity (the filter counter is reachable only through a positive filter verdict, and a command counted as filtered is not enqueued afterwards); " +
+		"R7 filter polarity (the filter counter is reachable only through a positive filter verdict, and a command counted as filtered is not enqueued afterwards; conversely every enqueue of the loop lies behind tests that found every drop flag, above all the database verdict of the last SELECT, false since it was last written); " +
 		"R8 ticker flush (a constant-period ticker arm exists and, once it requests a flush, sendFunc() runs before the next select).",
 	NotDecided: "the delay bound itself, back-pressure of Send, interleavings with the target-reply reader, byte equality of arguments beyond the dataflow shape; the flush aspects of R4/R5 are necessary for C04 (one database per batch) and only reported as UNDECIDED here when they deviate.",
 	Trusted:    []string{"go/parser, go/types, go/cfg (x/tools v0.29.0)", "Go channel FIFO semantics", "redigo Conn.Send/Flush preserve call order on one connection"},
@@ -59,7 +59,7 @@ func Run(c *core.Ctx) {
 	c.Expect("R4.barrier", 2)
 	c.Expect("R5.automaton", 22)
 	c.Expect("R6.payload", 8)
-	c.Expect("R7.polarity", 4)
+	c.Expect("R7.polarity", 5)
 	c.Expect("R8.ticker", 3)
 }
 
@@ -138,6 +138,9 @@ func r1(c *core.Ctx) {
 		b := b
 		info := b.Pkg.TypesInfo
 		other := func() string {
+			if b.Lit != nil && !StartedByGo(sites, b) {
+				return "?" // a closure runs where it is called: judged by the goroutines that reach it
+			}
 			if StartedByGo(sites, b) || b.Decl == send.Decl || b.Decl == parse.Decl {
 				return "FAIL"
 			}
@@ -185,7 +188,25 @@ func r1(c *core.Ctx) {
 				case other() == "FAIL":
 					c.Failf(rule, "recv/"+b.Name, x.Pos(), "%s dequeues from ds.sendBuf besides the sender: commands taken here never reach the target (or reach it out of order)", b.Name)
 				default:
-					c.Undecidedf(rule, "recv/"+b.Name, x.Pos(), "dequeue outside sendTargetCommand: cannot tell which goroutine executes it")
+					onlySender, otherG := true, false
+					for _, r := range goroutinesOf(c, b, x, 4) {
+						if r.Kind == "gofn" && r.Fn == send.Obj {
+							continue
+						}
+						if r.Kind == "unknown" {
+							onlySender = false
+						} else {
+							otherG, onlySender = true, false
+						}
+					}
+					switch {
+					case onlySender:
+						c.Okf(rule, "recv/"+b.Name, x.Pos(), "dequeue in code that only the sender goroutine runs")
+					case otherG:
+						c.Failf(rule, "recv/"+b.Name, x.Pos(), "%s dequeues from ds.sendBuf and is reached from another goroutine than the sender: commands taken there never reach the target (or reach it out of order)", b.Name)
+					default:
+						c.Undecidedf(rule, "recv/"+b.Name, x.Pos(), "dequeue outside sendTargetCommand: cannot tell which goroutine executes it")
+					}
 				}
 			case *ast.RangeStmt:
 				if IsSendBuf(info, x.X) {
@@ -239,8 +260,36 @@ func r1(c *core.Ctx) {
 
 // isFilterCount: the call is ds.stat.incrSyncFilter.Incr()/Add().
 func isFilterCount(info *types.Info, call *ast.CallExpr) bool {
-	sel, ok := ast.Unparen(call.Fun).(*ast.SelectorExpr)
-	return ok && (sel.Sel.Name == "Incr" || sel.Sel.Name == "Add") && core.IsFieldNamed(info, sel.X, "Status", "incrSyncFilter")
+	sel := MethodSel(info, call)
+	return sel != nil && (sel.Sel.Name == "Incr" || sel.Sel.Name == "Add") && core.IsFieldNamed(info, sel.X, "Status", "incrSyncFilter")
+}
+
+// MethodSel returns the selector `x.M` of the method (or field function) that
+// call invokes: the call's own Fun, or the method value bound once to the
+// local the call goes through (`count := x.M; count()`).
+func MethodSel(info *types.Info, call *ast.CallExpr) *ast.SelectorExpr {
+	fun := ast.Unparen(call.Fun)
+	for step := 0; step < 4; step++ {
+		id, ok := fun.(*ast.Ident)
+		if !ok {
+			break
+		}
+		v, ok := core.ObjOf(info, id).(*types.Var)
+		if !ok || v.IsField() {
+			return nil
+		}
+		fd := enclosingDecl(v.Pkg(), v.Pos())
+		if fd == nil {
+			return nil
+		}
+		o, ok := SoleOrigin(info, fd, id)
+		if !ok || o.Expr == nil || o.Op != 0 || o.Range || o.Res > 0 {
+			return nil
+		}
+		fun = ast.Unparen(o.Expr)
+	}
+	sel, _ := fun.(*ast.SelectorExpr)
+	return sel
 }
 
 func (p *Parser) counts(c *core.Ctx) func(ast.Node) bool {
@@ -300,14 +349,25 @@ func r3(c *core.Ctx, s *Sender) {
 				inGraph++
 			}
 		}
+		// `item, ok := <-queue`: on the branch where ok is false nothing was dequeued
+		var okVar types.Object
+		if len(s.RecvComm.Lhs) == 2 {
+			okVar = core.ObjOf(info, s.RecvComm.Lhs[1])
+		}
+		nothingReceived := s.Fl.Edge(func(ft cfgq.Fact) bool {
+			o, val := BoolFact(info, ft)
+			return okVar != nil && o == okVar && !val
+		})
 		w := s.G.Path(cfgq.Query{From: cfgq.Point{B: s.RecvBody, I: 0}, Avoid: s.IsAppend,
-			AvoidEdge: s.Fl.Edge(func(ft cfgq.Fact) bool { return isHold(holdS, true)(ft) || isHold(holdE, true)(ft) }),
-			Target:    s.IsRecv, TargetExit: cfgq.NormalExit})
+			AvoidEdge: func(b *cfg.Block, si int) bool {
+				return nothingReceived(b, si) || s.Fl.Edge(func(ft cfgq.Fact) bool { return isHold(holdS, true)(ft) || isHold(holdE, true)(ft) })(b, si)
+			},
+			Target: s.IsRecv, TargetExit: cfgq.NormalExit})
 		if inGraph != len(s.Appends) {
 			c.Undecidedf(rule, "append-unless-marker", s.RecvComm.Pos(), "the batch is appended to inside a closure; paths of the receive arm cannot be judged")
 		} else if w != nil && s.G.Path(cfgq.Query{From: cfgq.Point{B: s.RecvBody, I: 0}, Avoid: s.IsAppend,
 			AvoidEdge: func(b *cfg.Block, si int) bool {
-				return opaqueEdge(s, b, si) || s.Fl.Edge(func(ft cfgq.Fact) bool { return isHold(holdS, true)(ft) || isHold(holdE, true)(ft) })(b, si)
+				return nothingReceived(b, si) || opaqueEdge(s, b, si) || s.Fl.Edge(func(ft cfgq.Fact) bool { return isHold(holdS, true)(ft) || isHold(holdE, true)(ft) })(b, si)
 			}, Target: s.IsRecv, TargetExit: cfgq.NormalExit}) == nil {
 			c.Undecidedf(rule, "append-unless-marker", s.RecvComm.Pos(), "the append is skipped under a condition on the barrier state that the rule cannot read")
 		} else {
@@ -349,7 +409,7 @@ func r3(c *core.Ctx, s *Sender) {
 		switch {
 		case !inG:
 			c.Undecidedf(rule, key, a.Pos(), "the batch is appended to inside a closure")
-		case len(call.Args) == 2 && !call.Ellipsis.IsValid() && IsObj(info, s.Tunnel)(call.Args[0]) && IsObj(info, s.Item)(call.Args[1]):
+		case len(call.Args) == 2 && IsObj(info, s.Tunnel)(call.Args[0]) && (!call.Ellipsis.IsValid() && IsObj(info, s.Item)(call.Args[1]) || call.Ellipsis.IsValid() && oneItemSlice(info, s, call.Args[1])):
 			c.Okf(rule, key, a.Pos(), "the received item itself is appended")
 			w := s.G.Path(cfgq.Query{From: pt, After: true, Avoid: s.IsRecv, Target: s.IsAppend})
 			c.Check(rule, fmt.Sprintf("append-once#%d", i+1), a.Pos(), w == nil, "after the item was cached no second append may be reached before the next receive: the command would be sent twice", w...)
@@ -604,6 +664,9 @@ func opaqueEdge(s *Sender, b *cfg.Block, si int) bool {
 			}
 		case *ast.Ident:
 			if v, ok := core.ObjOf(info, x).(*types.Var); ok && !v.IsField() && types.Identical(v.Type().Underlying(), types.Typ[types.Bool]) {
+				if len(s.RecvComm.Lhs) == 2 && core.ObjOf(info, s.RecvComm.Lhs[1]) == types.Object(v) {
+					break // the ok flag of the receive says nothing about the state
+				}
 				hit = true
 			}
 		}
@@ -612,10 +675,16 @@ func opaqueEdge(s *Sender, b *cfg.Block, si int) bool {
 	return hit
 }
 
+// oneItemSlice: e is `[]cmdDetail{item}`.
+func oneItemSlice(info *types.Info, s *Sender, e ast.Expr) bool {
+	lit, ok := ast.Unparen(e).(*ast.CompositeLit)
+	return ok && len(lit.Elts) == 1 && IsObj(info, s.Item)(lit.Elts[0])
+}
+
 // itemField: e is <element of this iteration>.<field>.
 func itemField(info *types.Info, s *Sender, e ast.Expr, field string) bool {
 	sel, ok := ast.Unparen(e).(*ast.SelectorExpr)
-	return ok && sel.Sel.Name == field && core.FieldOf(info, sel) != nil && s.IsItem(info, sel.X)
+	return ok && sel.Sel.Name == field && s.IsItem(info, sel.X)
 }
 
 func isFieldOf(info *types.Info, e ast.Expr, base types.Object, field string) bool {
@@ -667,6 +736,12 @@ func r8(c *core.Ctx, s *Sender) {
 	case *ast.CallExpr: // time.After(d) / time.Tick(d)
 		if f := core.CalleeFunc(info, x); core.IsFunc(f, "time", "", "After") || core.IsFunc(f, "time", "", "Tick") {
 			period(x)
+		}
+	case *ast.Ident: // tick := time.Tick(d)
+		if o, ok := SoleOrigin(info, s.Fn.Decl.Body, x); ok {
+			if call, ok := CallOrigin(info, o, "time", "", "Tick", 0); ok {
+				period(call)
+			}
 		}
 	}
 	if !perOK {
